@@ -667,6 +667,7 @@ func runC17(args []string) int {
 
 	// ---- D. BitBucket's own reconciliation -------------------------------------------------------------
 	c17BitBucket(r, rep, cw, caseID+nsrv, nbb)
+	c17BitBucketListing(r, rep, nbb)
 
 	cw.flush()
 	rep.CaseFiles = cw.files
